@@ -81,13 +81,21 @@ def cid_rows(case):
     rows = [["D", "Format", "Fixed" if case["fmt"] == "fixed" else "Delimited"]]
     if case["header"]:
         rows.append(["D", "Header", str(case["header"])])
+    late = []
     if case["allowed"] is not None:
-        rows.append(["D", "Allowed characters", _range_text(case["allowed"]["items"])])
+        # only Format has to come first: the other properties may stand behind the fields or at the very end
+        where = case.get("allowed_row", "before-fields")
+        (rows if where == "before-fields" else late).append(
+            ["D", "Allowed characters", _range_text(case["allowed"]["items"])])
     for field in case["fields"]:
         rows.append(["F", field["name"], "", "X" if field["empty"] else "",
                      "" if field["items"] is None else _range_text(field["items"]), field["type"], field["rule"]])
+    if case.get("allowed_row") == "after-fields":
+        rows.extend(late)
     for check in case["checks"]:
         rows.append(["C", check["desc"], check["type"], check["rule"]])
+    if case.get("allowed_row") == "last":
+        rows.extend(late)
     return rows
 
 
@@ -252,6 +260,7 @@ def cases(draw, plugin=False):
     case = {"fmt": fmt, "header": draw(st.sampled_from([0, 0, 1, 1, 2])),
             "allowed": draw(st.sampled_from(ALLOWED_VARIANTS)), "fields": [], "checks": [], "runs": [],
             "plugin": None}
+    case["allowed_row"] = draw(st.sampled_from(["before-fields", "before-fields", "after-fields", "last"]))
     n_fields = draw(st.integers(2 if plugin else 1, 4))
     kinds = [draw(st.sampled_from(FIELD_TYPES)) for _ in range(n_fields)]
     if "Rec" not in kinds:
